@@ -26,13 +26,13 @@ META = {
                     "joint values in (0, 2e-6) are never generated (exponential cut-off band); if a solver returns one "
                     "the tolerance is 5e-6"],
 }
-REQUIRED_CLAUSES = ["a.fk_value", "b.eepos", "c.base", "d.joint_frames", "d.tool_is_last", "e.jacobian", "e.jacobian_body"]
+REQUIRED_CLAUSES = ["a.fk_value", "b.eepos", "c.base", "d.joint_frames", "d.tool_is_last", "e.jacobian", "e.jacobian_body", "f.after_query"]
 
 
 def plan(tier, seed):
     if tier == "quick":
         return [{"n": 120, "timeout_s": 1800} for _ in range(16)]
-    return [{"n": 2500, "timeout_s": 14400} for _ in range(16)]
+    return [{"n": 2500, "timeout_s": 14400} for _ in range(16)] + [{"mode": "suite", "n": 0, "timeout_s": 3600}]
 
 
 def gen_history(rng, model):
@@ -167,7 +167,26 @@ def run_history(desc, base, ops, ctx, bm, construct="at_base"):
                 ctx.violation(clause, clause + "/after=" + after, {"err": tol.maxabs(J - want) if J.shape == want.shape else None,
                                                                    "tol": t, "step": step}, hist)
 
+    def check_queries(step, after):
+        """Queries with defaulted joint arguments refer to the current state and leave the reported poses alone."""
+        if not model.theta_known or np.any(model.clamp(model.theta) != model.theta):
+            return      # a free-IK state outside the limits: any query that evaluates FK clamps it (the property's own rule)
+        T = model.pose()
+        qd = np.linspace(-1.0, 1.0, model.n)
+        for name, fn in (("jacobianEETrans", lambda: arm.jacobianEETrans()), ("numericalJacobian", lambda: arm.numericalJacobian()),
+                         ("jacobianLink", lambda: arm.jacobianLink(model.n - 1)), ("velocityAtEndEffector", lambda: arm.velocityAtEndEffector(qd)),
+                         ("getManipulability", lambda: arm.getManipulability()), ("jacobian", lambda: arm.jacobian()),
+                         ("jacobianBody", lambda: arm.jacobianBody()), ("getJointTransforms", lambda: arm.getJointTransforms())):
+            try:
+                fn()
+            except Exception as e:
+                ctx.bump("query_raised", name + ":" + type(e).__name__)
+                continue
+            if not cmp_pose("f.after_query", "eepos_changed_by_query/" + name, arm.getEEPos(), T, step):
+                return
+
     check_state(-1, "construct:" + construct)
+    check_queries(-1, "construct")
     for step, op in enumerate(ops):
         k = op["op"]
         try:
@@ -246,6 +265,8 @@ def run_history(desc, base, ops, ctx, bm, construct="at_base"):
         sub = k + (":stationary" if op.get("stationary") else "") + (":free" if op.get("protect") else "") + \
             (":with_theta" if k == "setArbitraryHome" and op.get("theta") is not None else "")
         check_state(step, sub)
+        if step % 3 == 2 or step == len(ops) - 1:
+            check_queries(step, sub)
 
 
 def pick_arm(rng):
@@ -258,6 +279,12 @@ def pick_arm(rng):
 
 
 def run_shard(spec, ctx):
+    if spec.get("mode") == "suite":
+        from ..worker import import_target
+        from ..suite import run_under_monitors
+        import_target()
+        run_under_monitors(ctx, "C05", timeout_s=spec["timeout_s"] - 120)
+        return
     bm = armlib.load_bm()
     rng = ctx.rng
     for _ in range(int(spec["n"])):
@@ -278,6 +305,10 @@ def run_shard(spec, ctx):
 
 
 def replay(case, ctx):
+    if "suite_test" in case:
+        from ..suite import run_under_monitors
+        run_under_monitors(ctx, "C05", select=[case["suite_test"]])
+        return
     bm = armlib.load_bm()
     ctx.case(case.get("ops"), True)
     run_history(case["arm"], case["base"], case["ops"], ctx, bm, case.get("construct", "at_base"))
